@@ -34,14 +34,16 @@ type GenOpts struct {
 	MidBias         bool // favour files of several blocks and edited files (series with many messages)
 }
 
-var dirPool = []string{"", "", "a", "a/b", "c", "a/b/d", "e"}
+var dirPool = []string{"", "", "a", "a/b", "c", "a/b/d", "e", "..cache"}
 var namePool = []string{"f0", "f1", "f2", "f3", "f4", "f5", "f6", "f7", "x", "x.dat", "lib.so", "data.bin", "F0", "X", "Data.bin",
 	// a name close to the 255-byte limit of a path component, and names that look like the temporary
 	// names an implementation might derive from other names
 	longName, "f1.butler-rename-1", ".butler-rename-1", ".butler-rename-2",
 	// names that sort between a directory of the pool and its content when compared as strings
 	// ("a.pak" < "a/f0"), but after it in walk order
-	"a.pak", "a b", "c-1", "e.d"}
+	"a.pak", "a b", "c-1", "e.d",
+	// names that begin like the parent directory does, or are made of dots (legal: neither "." nor "..")
+	"..data", "...", ".x"}
 
 var longName = "L" + strings.Repeat("o", 243) + "g"
 
